@@ -125,8 +125,10 @@ Proof.
   destruct (c_modules c); destruct (e_mc e); cbn; eexists; reflexivity.
 Qed.
 
-(** WithContext._local_trace: the frame keeps a WithContext closure iff the wrapped trace function returned non-None *)
-Lemma tie_local_trace : forall r, wexec FUEL local_trace_prog r = Some r.
+(** WithContext._local_trace, called with a live next_trace (a fresh closure at a call event; a closure that stayed
+    on the frame -- it stays only when it returned itself, i.e. when next_trace was not None): it does not raise, and
+    the frame keeps the closure iff the wrapped trace function returned non-None *)
+Lemma tie_local_trace : forall r, wexec FUEL local_trace_prog true r = Some r.
 Proof. destruct r; reflexivity. Qed.
 
 Lemma tie_sys_trace : sys_trace_thread_guarded = true.
